@@ -66,14 +66,18 @@ var c09Catalogue = []violation{
 		return nestND(rng, inner, d)
 	})},
 	{"empty-restriction", rawRel(func(rng *rand.Rand, d int) string {
-		inner := []string{"[]", "[ ]", "[] or a", "[,]", "[user,]", "[,user]", "[user,,group]"}[rng.Intn(7)]
+		inner := []string{"[]", "[ ]", "[] or a", "[,]", "[user,]", "[,user]", "[user,,group]", "[\n    ]", "[\n      user,\n    ]", "[\n      ,\n      user\n    ]"}[rng.Intn(10)]
 		if d > 0 {
 			return "(" + strings.Repeat("(", d-1) + inner + strings.Repeat(")", d-1) + ") or a"
 		}
 		return inner
 	})},
 	{"wildcard-and-relation", rawRel(func(rng *rand.Rand, d int) string {
-		return []string{"[user:*#member]", "[user#member:*]", "[group, user:*#member]", "[user:*#member with c]", "[user:*:*]", "[user#a#b]"}[rng.Intn(6)] + []string{"", " or a", " and b from c"}[rng.Intn(3)]
+		lists := []string{"[user:*#member]", "[user#member:*]", "[group, user:*#member]", "[user:*#member with c]", "[user:*:*]", "[user#a#b]",
+			// one restriction per line, the offending one alone on its line, first, in the middle and last
+			"[\n      user:*#member\n    ]", "[\n      user,\n      group:*#member\n    ]", "[\n      group:*#member,\n      user\n    ]",
+			"[\n      user,\n      group:*#member with c\n    ]", "[ user,\n      group#member:*\n    ]", "[\n      user, group:*#member\n    ]"}
+		return lists[rng.Intn(len(lists))] + []string{"", " or a", " and b from c"}[rng.Intn(3)]
 	})},
 	{"duplicate-relation", func(rng *rand.Rand, m *Model) bool {
 		ti, ri, ok := pickRelSite(rng, m)
